@@ -13,6 +13,7 @@ class Api:
     def __init__(self, path=None):
         cat = json.load(open(path or os.path.join(VERIF, 'build/api.json')))
         self.plain = cat['plain']
+        self.plain_ret = cat.get('plain_ret', {})
         self.builders = cat['builders']
         self.enums = cat['enums']
         self.leaves = cat['leaves']
